@@ -9,6 +9,7 @@
    everything the closest-key walk does. *)
 From DnsV Require Import Base.Bytes Model.Store Model.LookupV1 Model.LookupV2.
 From DnsV Require Import Spec.Answer Spec.Rows Proofs.ZoneCut Proofs.Store Proofs.Ctx Proofs.CtxFind Proofs.Reverse Proofs.SortedStore.
+From DnsV Require Import Model.Serve Proofs.Compile Proofs.RevOrder Proofs.V2Funcs Proofs.SeekSkip Proofs.V2Store Proofs.V2Sim Proofs.V2Readers Proofs.V2Serve Proofs.V2Corollaries.
 Open Scope N_scope.
 
 (* SeekForPrev as modelled: the key found is a key of the store, returned with its own rows,
@@ -76,14 +77,172 @@ Theorem C02_reverse_zone_name : forall n, wf_name n -> nlen (pack n) <= 255 ->
 Proof. exact reverse_zone_name_pack. Qed.
 Print Assumptions C02_reverse_zone_name.
 
-(* C02_v2_equals_v1_partial.  The statement targeted by DESIGN.md,
-     forall recs q L, serve RDB2 (store_v2 recs) q L ~ serve RDB1 (store_v1 recs) q L,
-   is NOT proved.  Proved: the cache is out of the picture (theorems above), so what remains is
-   the cache-free walk [find_pure] against the label-by-label loops; the missing lemma is
-   seek_skip_sound (a closest key that shares k labels with the name proves that no ancestor with
-   more than k labels has a key).
-   The differential run compares the three real servers pairwise on every query (Run/C02.v) and
-   the v2 model against the RocksDB-v2 server (Run/Core.v). *)
+(* ================================================================ the simulation: v2 reader = v1 reader
+
+   Vocabulary.  Names are label lists; [bkey r loc] = "\000o" ++ labels of r (top-level label first,
+   each behind its length byte) ++ 0 ++ loc is the v2 key of the name with reversed label list r and
+   location loc ([key_v2 rc = bkey (rev (r_owner rc)) (loc_bytes rc)]).  [name_ok] : every label has
+   1..63 bytes.  [store_v2 recs] : the v2-keyed store the records compile to.  [v2_store recs st] :
+   what the reader may assume of ANY v2 database holding the records - every key once; each key is
+   the key of a name with a two-byte location ([rr_shaped]) or [foreign] (no "\000o" prefix, or a
+   first byte >= 64 behind it, like "\000o_features"); the rows of a name key are the declared
+   rows.  Other key families (maps, features) and the order of keys in the dump are irrelevant. *)
+
+(* SeekForPrev returns the GREATEST key <= probe, or nothing when there is none *)
+Theorem C02_seek_prev_greatest : forall (db : store) k,
+  match seek_prev db k with
+  | Some (k', v) => In (k', v) db /\ bleb k' k = true /\
+                    (forall k'' v'', In (k'', v'') db -> bleb k'' k = true -> bleb k'' k' = true)
+  | None => forall k'' v'', In (k'', v'') db -> bleb k'' k = false
+  end.
+Proof. exact seek_prev_greatest. Qed.
+Print Assumptions C02_seek_prev_greatest.
+
+(* reversed packed names are a prefix-free code ordered below their descendants: the key of an
+   ancestor sorts strictly before every key of a name below it, whatever the two locations *)
+Theorem C02_ancestor_key_lt : forall x l z loc loc', lab_ok l ->
+  bltb (bkey x loc') (bkey (x ++ l :: z) loc) = true.
+Proof. exact ancestor_key_lt. Qed.
+Print Assumptions C02_ancestor_key_lt.
+
+(* seek_skip_sound (DESIGN.md).  The probe for ancestor r of the query name (reversed labels
+   r ++ rest) and location loc landed on the key of name y: every proper ancestor x of r that has a
+   key under ANY location is an ancestor-or-self of the common label prefix [clp] of the query name
+   and y - so no name strictly between that prefix and r has a key, and the walk may skip them *)
+Theorem C02_seek_skip_sound : forall st r rest loc y ly v x z loc' v',
+  seek_prev st (bkey r loc) = Some (bkey y ly, v) ->
+  r = x ++ z -> z <> [] -> name_ok z -> name_ok x -> In (bkey x loc', v') st ->
+  exists w, clp (r ++ rest) y = x ++ w.
+Proof. exact seek_skip_sound. Qed.
+Print Assumptions C02_seek_skip_sound.
+
+(* border of data: nothing at or below the probe, or a key without the marker - then no proper
+   ancestor has a key at all *)
+Theorem C02_seek_skip_none : forall st r loc x z loc' v',
+  seek_prev st (bkey r loc) = None ->
+  r = x ++ z -> z <> [] -> name_ok z -> ~ In (bkey x loc', v') st.
+Proof. exact seek_skip_none. Qed.
+Print Assumptions C02_seek_skip_none.
+Theorem C02_seek_skip_border : forall st r loc k v x z loc' v',
+  seek_prev st (bkey r loc) = Some (k, v) -> is_prefix marker k = false ->
+  r = x ++ z -> z <> [] -> name_ok z -> ~ In (bkey x loc', v') st.
+Proof. exact seek_skip_border. Qed.
+Print Assumptions C02_seek_skip_border.
+
+(* the helper routines on wire-valid names: neither the Go byte arithmetic of
+   getLengthWithoutLastLabel wraps nor does anything index out of range, and they compute the
+   length without the last label / the length of the common label prefix *)
+Theorem C02_get_length_without_last_label : forall r t, name_ok r -> r <> [] -> nlen (body r) + 1 <= 255 ->
+  get_length_without_last_label (body r ++ t) (nlen (body r) + 1) = Val (nlen (body (removelast r)) + 1).
+Proof. exact glwll_spec. Qed.
+Print Assumptions C02_get_length_without_last_label.
+Theorem C02_find_common_longest_prefix : forall a b, name_ok a -> name_ok b -> a <> b ->
+  find_common_longest_prefix (body a ++ [0]) (body b ++ [0]) = Val (nlen (body (clp a b))).
+Proof. exact fclp_spec. Qed.
+Print Assumptions C02_find_common_longest_prefix.
+
+(* the compiled v2 store is a v2 store, and holds under (name, location) the rows the v1 store
+   holds under (location, name) *)
+Theorem C02_store_v2_ok : forall recs, wf_recs recs -> v2_store recs (store_v2 recs).
+Proof. exact store_v2_ok. Qed.
+Print Assumptions C02_store_v2_ok.
+Theorem C02_rows_v2_v1 : forall recs st m loc, wf_recs recs -> v2_store recs st -> name_ok m -> length loc = 2%nat ->
+  get st (bkey (rev m) loc) = get (store_v1 recs) (loc ++ pack m).
+Proof. exact rows_v2_v1. Qed.
+Print Assumptions C02_rows_v2_v1.
+
+(* the three entry points of the v2 reader against those of the v1 reader, context cache threaded
+   through.  IsAuthoritative: same NS / SOA flags; the same zone cut when an NS was found; when none
+   was found the v1 reader reports the root and the v2 reader the last name it probed, neither of
+   which has a visible NS ([auth_rel]).  FindAnswer (control name = an ancestor-or-self of the query
+   name): the same answer items and found flag - location override probe, border of data, root
+   stop, zone-cut stop and the wild-safe check over skipped labels included.  ForEachResourceRecord
+   (FindSOA, GetNs, additional section): the same state and error flag *)
+Theorem C02_is_authoritative_sim : forall recs L st2, wf_recs recs -> length L = 2%nat -> v2_store recs st2 ->
+  forall n c, wf_name n -> nlen (pack n) <= 255 -> closest_sound st2 c ->
+  exists a1 a2 c',
+    is_authoritative_v1 RDB1 (store_v1 recs) (pack n) L = Val a1 /\
+    is_authoritative_v2 st2 c (pack n) L = Val (a2, c') /\ closest_sound st2 c' /\ auth_rel recs L n a1 a2.
+Proof. exact is_auth_sim. Qed.
+Print Assumptions C02_is_authoritative_sim.
+
+Theorem C02_find_answer_sim : forall recs L st2, wf_recs recs -> length L = 2%nat -> v2_store recs st2 ->
+  forall n cz cpre c qname qtype max,
+  wf_name n -> nlen (pack n) <= 255 -> n = cpre ++ cz -> closest_sound st2 c ->
+  exists an found c',
+    find_answer_v1 RDB1 (store_v1 recs) (pack n) (pack cz) qname qtype L max = Val (an, found) /\
+    find_answer_v2 st2 c (pack n) (pack cz) qname qtype L max = Val (an, found, c') /\ closest_sound st2 c'.
+Proof. exact find_answer_sim. Qed.
+Print Assumptions C02_find_answer_sim.
+
+Theorem C02_for_each_rr_sim : forall recs L st2, wf_recs recs -> length L = 2%nat -> v2_store recs st2 ->
+  forall S t c (f : cb S) s, name_ok t -> nlen (pack t) <= 255 -> get_sound st2 c ->
+  exists c', for_each_rr_v2 st2 c (pack t) L f s =
+               Val (fst (for_each_rr_v1 RDB1 (store_v1 recs) (pack t) L f s),
+                    snd (for_each_rr_v1 RDB1 (store_v1 recs) (pack t) L f s), c') /\
+             get_sound st2 c'.
+Proof. exact rr_sim. Qed.
+Print Assumptions C02_for_each_rr_sim.
+
+(* C02_v2_equals_v1 (DESIGN.md), full strength.  Guards, as for the C01 theorems: [wf_recs]
+   (fields fit their widths, labels 1..63 bytes and lower case, tags are two bytes other than 00),
+   [wf_view] for the client's location (every name with a visible SOA has a visible NS), the
+   lower-cased query name is a wire-valid name [pack n] of at most 255 bytes.  Then the handler over
+   RocksDB with v2 keys (closest-key reader, context cache included) returns EXACTLY the outcome of
+   the handler over RocksDB with v1 keys (label-by-label reader): same reply, no panic, no fuel
+   exhaustion; for every query type and class, EDNS or not, every echoed ECS option and max-answer.
+   Not covered by [serve] (see Model/Serve.v): the location lookup itself (C03), truncation, LRU. *)
+Theorem C02_v2_equals_v1 : forall recs L, wf_recs recs -> length L = 2%nat -> wf_view L recs = true ->
+  forall q n ecs max, wf_name n -> nlen (pack n) <= 255 -> lower_bytes (q_name q) = pack n ->
+  serve RDB2 (store_v2 recs) q (LocOk L) ecs max = serve RDB1 (store_v1 recs) q (LocOk L) ecs max.
+Proof. exact v2_equals_v1. Qed.
+Print Assumptions C02_v2_equals_v1.
+
+(* the same for ANY v2 database that holds the records, whatever else it holds and in whatever
+   order - what the differential run's dumps are (maps, features key, sorted) *)
+Theorem C02_v2_equals_v1_any_store : forall recs L st2,
+  wf_recs recs -> length L = 2%nat -> v2_store recs st2 -> wf_view L recs = true ->
+  forall q n ecs max, wf_name n -> nlen (pack n) <= 255 -> lower_bytes (q_name q) = pack n ->
+  serve RDB2 st2 q (LocOk L) ecs max = serve RDB1 (store_v1 recs) q (LocOk L) ecs max.
+Proof. exact serve_v2_equals_v1. Qed.
+Print Assumptions C02_v2_equals_v1_any_store.
+
+(* hence two v2 databases with the same records serve the same (compiler options, batch sizes and
+   the builder cannot matter to answers beyond the key -> rows map, which is C07's theorem) *)
+Theorem C02_v2_store_irrelevant : forall recs L st st' q n ecs max,
+  wf_recs recs -> length L = 2%nat -> wf_view L recs = true ->
+  v2_store recs st -> v2_store recs st' ->
+  wf_name n -> nlen (pack n) <= 255 -> lower_bytes (q_name q) = pack n ->
+  serve RDB2 st q (LocOk L) ecs max = serve RDB2 st' q (LocOk L) ecs max.
+Proof. exact v2_any_store. Qed.
+Print Assumptions C02_v2_store_irrelevant.
+
+(* Remarks.
+   * wf_view is needed: with a visible SOA but no visible NS anywhere above, IsAuthoritative finds
+     no zone cut; the v1 reader then reports the root as zone cut, the v2 reader the last name it
+     probed, and FindSOA at those two names can differ.  Such data is outside the statement
+     (a zone without NS records).
+   * NOT proved here: C02_cdb_equals_v1 (CDB against RocksDB v1: the two differ only in whether
+     ForEach returns a callback error, which needs an NS record whose rdata is not a name); the
+     compiler side (C07).  The differential run compares the three real servers pairwise on every
+     query (Run/C02.v) and the v2 model against the RocksDB-v2 server (Run/Core.v). *)
+
+(* the hypotheses are satisfiable and the conclusion is not vacuous: a located client, a wildcard
+   below the apex, the closest-key reader skipping from a.b.z to z *)
+Example C02_v2_example :
+  let recs := [mkRec [[122]] false None 6 60 0 [0; 0; 0; 0; 0; 1; 0; 0; 0; 2; 0; 0; 0; 3; 0; 0; 0; 4; 0; 0; 0; 5];
+               mkRec [[122]] false None 2 60 0 [1; 110; 0];
+               mkRec [[122]] true None 16 60 0 [1; 119];
+               mkRec [[120]; [122]] false (Some [97; 98]) 1 60 1 [10; 0; 0; 1]] in
+  let q := mkQ 1 [1; 65; 1; 98; 1; 122; 0] 16 1 None in
+  let n := [[97]; [98]; [122]] in
+  lower_bytes (q_name q) = pack n /\ wf_view [97; 98] recs = true /\
+  serve RDB2 (store_v2 recs) q (LocOk [97; 98]) None 1 =
+    OReply (mkResp 1 (Some ([1; 65; 1; 98; 1; 122; 0], 16, 1)) 0 true
+              [IRR (mkRR [1; 65; 1; 98; 1; 122; 0] 16 1 60 [1; 119])] [] [] None) /\
+  serve RDB1 (store_v1 recs) q (LocOk [97; 98]) None 1 = serve RDB2 (store_v2 recs) q (LocOk [97; 98]) None 1.
+Proof. exact v2_example. Qed.
+Print Assumptions C02_v2_example.
 
 Example C02_example :
   let st := [([0; 111; 0; 0; 0], [[9]]); ([0; 111; 1; 97; 0; 0; 0], [[1]; [2]])] in
